@@ -347,7 +347,11 @@ func suiteMatch(c *Ctx) error {
 			// skip when a model confidence sits on the threshold (float rounding decides)
 			near := false
 			for _, res := range ro.match {
-				if !math.IsNaN(res.Confidence) && math.Abs(res.Confidence-mc.Thr) < 1e-9 && res.Confidence != mc.Thr {
+				// an exact float hit counts as "on the boundary" too unless the threshold is a short dyadic
+				// (0.5, 0.75, 1.0 ...): float64(0.9) is not 9/10, so a confidence that is exactly 9/10 as a
+				// rational and rounds to float64(0.9) is above the threshold for the code, below for the model
+				dyadic := mc.Thr*1024 == math.Floor(mc.Thr*1024)
+				if !math.IsNaN(res.Confidence) && math.Abs(res.Confidence-mc.Thr) < 1e-9 && (res.Confidence != mc.Thr || !dyadic) {
 					near = true
 				}
 			}
